@@ -276,6 +276,9 @@ class ShardCMC(CMCReadWrite, ABC):
         if self.can_read_cmc:
             offsets = self.get_minishards_offsets()
             for offset, end in zip(offsets[::2], offsets[1::2]):
+                if offset == end:
+                    # this minishard does not contain any chunk
+                    continue
                 start = int(offset + self.header_byte_length)
                 length = int(end - offset)
                 minishard_raw_buffer = self.read_bytes(start, length)
